@@ -10,11 +10,11 @@ Fixpoint norec (g : G) : bool :=
   | End | Empty | Any | Just _ | OneOf _ | NoneOf _ | Select _ _ | Custom _ _ | JustCfg _ | Var _ => true
   | Map _ a | MapWith _ a | To _ a | Ignored a | ToSpan a | ToSlice a | Filter _ a | TryMap _ _ _ a
   | TryMapWith _ _ _ a | Validate _ _ a | OrNot a | Not a | Rewind a | Labelled _ _ a | MapErr _ a
-  | WithCtx _ a | MapCtx _ a | Memo _ a | Rec a => norec a
+  | WithCtx _ a | MapCtx _ a | Memo _ a | Rec a | NestedIn a => norec a
   | Then a b | IgnoreThen a b | ThenIgnore a b | PaddedBy a b | Or a b | AndIs a b
   | IgnoreWithCtx a b | ThenWithCtx a b => norec a && norec b
   | DelimitedBy a b c => norec a && norec b && norec c
-  | Group gs | Choice gs | ChoiceVec gs => forallb norec gs
+  | Group gs | Choice gs | ChoiceVec gs | GroupArr gs => forallb norec gs
   | RepUnit i | Collect _ i | CollectExactly _ i => norec_it i
   | Foldl a i _ | FoldlWith a i _ => norec a && norec_it i
   | Foldr i b _ | FoldrWith i b _ => norec_it i && norec b
@@ -523,6 +523,8 @@ Proof.
     destruct (envok_nth _ _ _ He Ek). eapply IH; eauto.
   - (* Pratt *) apply andb_prop in Hn; destruct Hn as (Hn1 & Hn2).
     exact (proj1 (pratt_mono _ IH IHE g ops ctx Hn1 Hn2 He n) _ _ _ _ _ Hp H).
+  - (* GroupArr *) eapply (group_sem_mono _ IH IHE) in H; eauto.
+  - discriminate.
 Qed.
 
 End Furthest.
